@@ -388,8 +388,8 @@ fn c13_exhaustive_items(maxn: usize) -> Vec<SeqCase> {
 				let mut steps: Vec<(u8, Step)> = vec![(0, Step::GetKey)];
 				for (l, p) in pat.iter().enumerate() {
 					match p {
-						1 => steps.push((0, Step::PhantomHold { leaf: l as u32, shared: true })),
-						2 => steps.push((0, Step::PhantomHold { leaf: l as u32, shared: false })),
+						1 => steps.push((0, Step::PhantomHold { leaf: l as u32, shared: true, transient: false })),
+						2 => steps.push((0, Step::PhantomHold { leaf: l as u32, shared: false, transient: false })),
 						_ => {}
 					}
 				}
@@ -431,8 +431,8 @@ fn c13_exhaustive_items(maxn: usize) -> Vec<SeqCase> {
 					}
 					let mut steps: Vec<(u8, Step)> = vec![(0, Step::GetKey)];
 					match p {
-						1 if ty == LeafTy::R => steps.push((0, Step::PhantomHold { leaf: 0, shared: true })),
-						2 => steps.push((0, Step::PhantomHold { leaf: 0, shared: false })),
+						1 if ty == LeafTy::R => steps.push((0, Step::PhantomHold { leaf: 0, shared: true, transient: false })),
+						2 => steps.push((0, Step::PhantomHold { leaf: 0, shared: false, transient: false })),
 						_ => {}
 					}
 					let t = TargetRef::Leaf(0);
@@ -461,6 +461,7 @@ fn c04(tier: Tier, seed: u64) -> i32 {
 		let case = gen_seq(&mut Src::new(bytes), &cfg);
 		eval_seq_case(&e, &case, want)
 	});
+	conc_campaign(&mut ctx, "C04", tier);
 	ctx.require_label("rollback", 100);
 	ctx.require_label("world.nested", 500);
 	ctx.finish()
@@ -480,6 +481,7 @@ fn c03(tier: Tier, seed: u64) -> i32 {
 		let case = gen_seq(&mut Src::new(bytes), &cfg);
 		eval_seq_case(&e, &case, want)
 	});
+	conc_campaign(&mut ctx, "C03", tier);
 	ctx.require_label("key_via_unlock", 200);
 	ctx.require_label("try_failed", 100);
 	ctx.finish()
@@ -496,6 +498,7 @@ fn c05(tier: Tier, seed: u64) -> i32 {
 		let case = gen_seq(&mut Src::new(bytes), &cfg);
 		eval_seq_case(&e, &case, want)
 	});
+	conc_campaign(&mut ctx, "C05", tier);
 	ctx.require_label("released_multi", 500);
 	ctx.require_label("rollback", 100);
 	ctx.finish()
@@ -769,6 +772,7 @@ fn c08(tier: Tier, seed: u64) -> i32 {
 		let case = gen_seq(&mut Src::new(bytes), &cfg);
 		eval_seq_case(&e, &case, want)
 	});
+	conc_campaign(&mut ctx, "C08", tier);
 	ctx.require_label("world.nested", 1000);
 	ctx.finish()
 }
@@ -812,9 +816,10 @@ fn c02(tier: Tier, seed: u64) -> i32 {
 	ctx.finish()
 }
 
-/// shared CONC campaign (C01's programs with a yield inside every section)
+/// shared CONC campaign: the property's CONC profile, its own findings from the
+/// per-step oracles (which also run under the scheduler) plus post-hoc oracles
 pub fn conc_campaign(ctx: &mut CheckCtx, prop: &'static str, tier: Tier) {
-	let cfg = ConcCfg::default();
+	let cfg = conc_profile(prop).unwrap_or_default();
 	let nontrivial = |case: &ConcCase, r: &RunResult| conc_nontrivial(prop, case, r);
 	let extra = |case: &ConcCase, r: &RunResult| post_findings(prop, &AnyCase::Conc(case.clone()), r);
 	let e = ConcEval { prop, nontrivial: &nontrivial, extra: Some(&extra) };
@@ -828,6 +833,7 @@ pub fn conc_campaign(ctx: &mut CheckCtx, prop: &'static str, tier: Tier) {
 pub fn conc_nontrivial(prop: &str, case: &ConcCase, r: &RunResult) -> bool {
 	match prop {
 		"C08" => c08_nontrivial(&case.world, r),
+		"C10" => has(r, "panic_in_section") && (has(r, "poison_observed_after_panic") || has(r, "poisoned_acquire")),
 		"C02" => {
 			// two threads touched a common leaf, one exclusively, and the scheduler switched
 			r.switches > 0 && {
@@ -856,6 +862,7 @@ fn c10(tier: Tier, seed: u64) -> i32 {
 		let case = gen_seq(&mut Src::new(bytes), &cfg);
 		eval_seq_case(&e, &case, want)
 	});
+	conc_campaign(&mut ctx, "C10", tier);
 	ctx.require_label("poisoned_acquire", 500);
 	ctx.require_label("clear_after_poison", 100);
 	ctx.finish()
@@ -1531,6 +1538,7 @@ pub fn seq_profile(prop: &str) -> Option<(SeqCfg, Opts)> {
 			let mut cfg = seq_cfg_general();
 			cfg.w.phantom_hold = 5;
 			cfg.w.p_try = 150;
+			cfg.w.p_transient = 128;
 			let opts = Opts { quiescent: false, ..Default::default() };
 			Some((cfg, opts))
 		}
@@ -1539,12 +1547,14 @@ pub fn seq_profile(prop: &str) -> Option<(SeqCfg, Opts)> {
 			cfg.w.p_panic = 40;
 			cfg.w.phantom_hold = 4;
 			cfg.w.p_unlock_fn = 150;
+			cfg.w.p_transient = 128;
 			let opts = Opts::default();
 			Some((cfg, opts))
 		}
 		"C05" => {
 			let mut cfg = seq_cfg_general();
 			cfg.w.phantom_hold = 4;
+			cfg.w.p_transient = 128;
 			cfg.w.p_panic = 30;
 			cfg.w.p_forget_guard = 10;
 			cfg.w.debug = 3;
@@ -1628,6 +1638,16 @@ pub fn conc_profile(prop: &str) -> Option<ConcCfg> {
 	match prop {
 		"C01" => Some(ConcCfg { min_threads: 1, ..ConcCfg::default() }),
 		"C02" | "C05" | "C04" | "C03" | "C08" => Some(ConcCfg::default()),
+		"C10" => {
+			let mut cfg = ConcCfg::default();
+			cfg.world.p_wrap = 170;
+			cfg.world.p_inline_wrap = 90;
+			cfg.world.p_pois_coll = 110;
+			cfg.world.min_colls = 1;
+			cfg.p_panic = 80;
+			cfg.p_coll_target = 150;
+			Some(cfg)
+		}
 		"C09" => {
 			let mut cfg = ConcCfg::default();
 			cfg.retry_first = true;
